@@ -8,9 +8,15 @@ package health
 
 //@ spec func csInv(s *circuitState) bool = s != nil && (s.isOpen == 0 || s.isOpen == 1) && s.failures >= 0 && (s.isOpen == 1 ==> s.failures >= 3) && s.lastAttempt >= 0
 
+//@ spec func cbInv(b *CircuitBreaker) bool = b != nil && b.failureThreshold == 3 && b.timeout == 30000000000 && (forall k string :: xhas(b.endpoints, k) ==> csInv(xget(b.endpoints, k)))
 //@ type CircuitBreaker
-//@   repinv self.failureThreshold == 3 && self.timeout == 30000000000
-//@   repinv forall k string :: xhas(self.endpoints, k) ==> csInv(xget(self.endpoints, k))
+//@   repinv cbInv(self)
+
+//@ type HealthClient
+//@   repinv cbInv(self.circuitBreaker)
+
+//@ type HTTPHealthChecker
+//@   repinv self.healthClient != nil && cbInv(self.healthClient.circuitBreaker)
 
 //@ func NewCircuitBreaker
 //@   property C08
